@@ -127,6 +127,9 @@ structure Meta where
   /-- `detectChatTemplate`: when `template.Named(kv.ChatTemplate())` recognises the GGUF's chat template, the
       bytes of the named template and (if it has parameters) their JSON encoding -/
   auto : Option (Bytes × Option Bytes) := none
+  /-- the media type `ggufLayers` gives the layer: `general.type` = adapter / projector (or a vision block count),
+      else model -/
+  kind : Media := .model
   deriving DecidableEq, Repr, Inhabited
 
 /-- Which of the three repairs the tree under test contains (`false` = the pinned upstream behaviour).
@@ -474,7 +477,7 @@ def fileLayers (env : Env) (st : Store) : List Digest → Store × Except String
         | (st1, auto) =>
           match fileLayers env st1 ds with
           | (st2, .error e) => (st2, .error e)
-          | (st2, .ok r) => (st2, .ok ((⟨.model, env.recorded d, c.length⟩, some mt) :: auto ++ r))
+          | (st2, .ok r) => (st2, .ok ((⟨mt.kind, env.recorded d, c.length⟩, some mt) :: auto ++ r))
 
 /-- the layers of `removeLayer(layers, mediatype)` on which `Layer.Remove` is called: all of that media type
     (pinned); with N2 repaired, not those whose blob also backs a layer of another media type in the list -/
